@@ -99,11 +99,11 @@ theorem frameLoop_rt (bpp : Nat) (hb : 1 ≤ bpp) (n : Nat) :
 def encodeImage (bpp rowLen : Nat) (rows : List (FilterType × Bytes)) : Bytes :=
   encodeFrame bpp (List.replicate rowLen 0) rows
 
-theorem frame_rt' (bpp ppr : Nat) (hb : 1 ≤ bpp) (hsz : bpp * ppr ≤ ISIZE_MAX)
+theorem frame_rt' (bpp ppr : Nat) (hb : 1 ≤ bpp) (hsz : bpp * ppr ≤ FLT_ISIZE_MAX)
     (rows : List (FilterType × Bytes)) (h : ∀ r ∈ rows, r.2.length = bpp * ppr) :
     decodeFrame (encodeImage bpp (bpp * ppr) rows) bpp ppr = .ok (joinRows rows) := by
-  have h1 : ¬ bpp * ppr > USIZE_MAX := by simp only [ISIZE_MAX, USIZE_MAX] at *; omega
-  have h2 : ¬ bpp * ppr > ISIZE_MAX := by omega
+  have h1 : ¬ bpp * ppr > FLT_USIZE_MAX := by simp only [FLT_ISIZE_MAX, FLT_USIZE_MAX] at *; omega
+  have h2 : ¬ bpp * ppr > FLT_ISIZE_MAX := by omega
   simp only [decodeFrame, h1, h2, if_false, encodeImage]
   exact frameLoop_rt bpp hb _ rows _ h
 end Lopdf
